@@ -126,10 +126,28 @@ def ffiNowOutcome (calls : List Value) (res : Except ShmErrorV Bound) : Rs.Outco
   | .ok b => .ok nullPtr .unit (calls ++ [evWrite "output" (ffiNowValue b)])
   | .error e => .ok (intoValue (shmErrorValue e)) .unit calls
 
-/-- the first error of the two calls, unconverted (so that `clientNow = (firstErr ..).mapError toClient`) -/
-def firstErr (snap : Except ShmErrorV Record) (bound : Except ShmErrorV Bound) : Except ShmErrorV Bound :=
-  match snap with
-  | .error e => .error e
-  | .ok _ => bound
+/-! ### `open()` -/
+
+/-- `ClockBoundClient::new_with_path(path) -> Result<ClockBoundClient, ClockBoundError>`: one call
+    `ShmReader::new(path as &CStr)`, then the client holding the reader, or the converted error -/
+def rustOpenOutcome (path : String) (res : Except ShmErrorV Value) : Rs.Outcome :=
+  .ok (resultValue clientErrValue clientValue (clientOpen res)) .unit
+    [evOpen (cstr (.str path)) (openResValue res)]
+
+/-- `clockbound_open(shm_path, err) -> *mut clockbound_ctx`: one call `ShmReader::new(CStr::from_ptr(shm_path))`;
+    on success the pointer to a new heap object `clockbound_ctx { err: Default::default(), reader }`
+    (`defaultValue`: at the declared type `clockbound_err`; `CodeTieErrors.ffi_default_eq` says what it is);
+    on an error `e`: NULL, after `err.write(e.into())` (`intoValue`: at the pointee type of the parameter
+    `err: *mut clockbound_err`) when `err` is not NULL -/
+def ffiOpenOutcome (path : Value) (errNull : Bool) (res : Except ShmErrorV Value) : Rs.Outcome :=
+  match res with
+  | .ok h => .ok (heapPtr (ctxValue defaultValue h)) .unit [evOpen (cstr path) (openResValue (.ok h))]
+  | .error e =>
+    .ok nullPtr .unit
+      (evOpen (cstr path) (openResValue (.error e)) ::
+        (if errNull then [] else [evWrite "err" (intoValue (shmErrorValue e))]))
+
+/-- the `err` argument of `clockbound_open`: NULL, or a valid pointer to the caller's `clockbound_err` -/
+def errArg (errNull : Bool) : Value := if errNull then nullPtr else outPtr "err"
 
 end ClockBound.Rs.EmbedErrors
